@@ -90,6 +90,8 @@ def run(chk: Check) -> None:
     run_class_state_is_a_stack(chk, ix)
     run_word_operator_spacing(chk, ix)
     run_replaced_args_lose_nothing(chk, ix)
+    run_exported_names_are_not_private(chk, ix)
+    run_init_file_test_for_relative_imports(chk, ix)
 
 
 def run_pending_decorators_cleared(chk: Check, ix) -> None:
@@ -226,3 +228,74 @@ def run_replaced_args_lose_nothing(chk: Check, ix) -> None:
             r6.ok(key, f.loc(g))
         else:
             r6.violation(key, f.loc(g), f"the guard `{norm(g.test)[:100]}` does not look at `arg.{fld}`: infer_method_arg_types builds ArgSig objects without it, so what the source said is lost (`tb=None` becomes `tb`)")
+
+
+def run_exported_names_are_not_private(chk: Check, ix) -> None:
+    """R19.7: a name listed in __all__ is never hidden as private."""
+    r7 = chk.rule("R19.7", "BaseStubGenerator.get_dunder_all() copies the whole runtime `__all__` into the stub, so the stub promises every name in it; is_private_name() decides which definitions are dropped. Every `return` of is_private_name that can be True (other than the one for mypy-generated `__mypy-` symbols, which cannot be in `__all__`) is reached only through the `name in self._all_` test (CFG must-pass-through): otherwise a name the stub's own `__all__` lists (an ignored dunder such as `__author__`, a `_private` name) is missing from the stub and stubtest reports it", floor=2)
+    cls = ix.cls("mypy.stubutil.BaseStubGenerator")
+    f = cls.methods.get("is_private_name")
+    gda = cls.methods.get("get_dunder_all")
+    if f is None or gda is None or not any(isinstance(x, ast.Attribute) and x.attr == "_all_" for x in ast.walk(gda.node)):
+        raise AnalysisError("BaseStubGenerator.is_private_name / get_dunder_all (emitting self._all_) not found")
+    g = CFG(f.node)
+    tests = [nd for nd in g.nodes if nd.kind in ("test", "cond", "branch") and any(isinstance(c, ast.Compare) and any(isinstance(o, ast.In) for o in c.ops) and any(norm(k) == "self._all_" for k in c.comparators) for e in nd.exprs for c in ast.walk(e))]
+    if not tests:
+        tests = [nd for nd in g.nodes if nd.stmt is not None and isinstance(nd.stmt, ast.If) and "in self._all_" in norm(nd.stmt.test)]
+    if not tests:
+        raise AnalysisError("is_private_name: no `name in self._all_` test found")
+    n = 0
+    par = f.module.parents()
+    for nd in g.nodes:
+        if nd.kind != "stmt" or not isinstance(nd.stmt, ast.Return):
+            continue
+        v = nd.stmt.value
+        if isinstance(v, ast.Constant) and v.value is False:
+            continue
+        conds = [norm(c) for c in guard_chain_simple(par, f.node, nd.stmt)]
+        if any("__mypy-" in c for c in conds):
+            continue
+        n += 1
+        key = f"is_private_name: `{norm(nd.stmt)[:50]}` is reached only after the __all__ test"
+        if g.must_pass(g.entry, [nd], tests, labels_excluded=("exc",)):
+            r7.ok(key, f.loc(nd.stmt))
+        else:
+            r7.violation(key, f.loc(nd.stmt), "a path from the entry reaches this return without asking whether the name is in `self._all_`: an exported name of that shape is dropped from the stub while the stub's `__all__` still lists it ('Names in __all__ with no definition', stubtest: not present in stub)")
+    if n < 2:
+        raise AnalysisError(f"is_private_name: only {n} possibly-True returns found")
+
+
+def guard_chain_simple(par, func, node):
+    out = []
+    child, p = node, par[node]
+    while p is not func:
+        if isinstance(p, ast.If) and child in p.body:
+            out.append(p.test)
+        child, p = p, par[p]
+    return out
+
+
+def run_init_file_test_for_relative_imports(chk: Check, ix) -> None:
+    """R19.8: stubgen decides "this file is a package __init__" the way the rest of mypy does."""
+    r8 = chk.rule("R19.8", "util.correct_relative_import's last argument says whether the importing file is a package `__init__`: a relative import there is resolved against the package itself, elsewhere against the parent. All callers in mypy/ ask the file's *base name* (MypyFile.is_package_init_file(), an attribute set from it, or os.path.basename(path)); stubgen's call does the same. A suffix test on the whole path (`path.endswith('.__init__.py')`) cannot hold for a file-system path, and then `from .core import X` in pkg/__init__.py is resolved to `core`, the same-package re-export rule of should_reexport() does not fire and the stub lacks `X as X`", floor=1)
+    n = 0
+    for mn in ("mypy.stubgen", "mypy.stubutil"):
+        m = ix.module(mn)
+        for f in list(m.functions.values()) + [mm for c in m.classes.values() for mm in c.methods.values()]:
+            for c in ast.walk(f.node):
+                if not (isinstance(c, ast.Call) and call_name(c) == "correct_relative_import" and len(c.args) >= 4):
+                    continue
+                n += 1
+                a3 = c.args[3]
+                if isinstance(a3, ast.Name):
+                    defs = [x.value for x in ast.walk(f.node) if isinstance(x, ast.Assign) and len(x.targets) == 1 and isinstance(x.targets[0], ast.Name) and x.targets[0].id == a3.id]
+                    if len(defs) == 1:
+                        a3 = defs[0]
+                t = norm(a3)
+                key = f"{mn.removeprefix('mypy.')}.{f.name}: the package-__init__ test of correct_relative_import looks at the file's base name"
+                if "is_package_init_file" in t or "basename(" in t:
+                    r8.ok(key, f.loc(c))
+                else:
+                    r8.violation(key, f.loc(c), f"`{t[:80]}` does not ask the base name of the file: for pkg/__init__.py the relative import is resolved one level too high, so names imported from the package's own submodules are not re-exported in the stub")
+    if n < 1:
+        raise AnalysisError("stubgen: no call of correct_relative_import with an init-file argument found")
